@@ -12,7 +12,7 @@ from fiddle._src import daglish
 from harness import common, l2, c02
 from harness.common import Failure, Result, Stream
 
-COQ_TARGETS = ["theories/C07Check.vo", "theories/Anchors.vo"]
+COQ_TARGETS = ["theories/C07Check.vo"]
 TRUSTED_BASE = ["copy.deepcopy and pickle are library code: the model gives their memoize-by-identity "
                 "semantics and this stream validates it"]
 ASSUMPTIONS = []
